@@ -391,7 +391,8 @@ impl Engine for C15 {
                     if step["how"].as_str() == Some("load") {
                         run::gc_active(true);
                         let mname = format!("m{}", m);
-                        let fut = vm.load_script_async(&mname, &text);
+                        // (on the current thread: after a cancellation the old thread's stack is dirty)
+                        let fut = cur.load_script_async(&mname, &text);
                         let r = exec::drive(fut, 100_000, |_| {});
                         run::gc_active(false);
                         let s = match r {
@@ -416,7 +417,7 @@ impl Engine for C15 {
                         let text = src.replace("@TAG@", "L|");
                         if step["how"].as_str() == Some("load") {
                             let mname = format!("m{}", m);
-                            let _ = exec::drive(vm.load_script_async(&mname, &text), 100_000, |_| {});
+                            let _ = exec::drive(cur.load_script_async(&mname, &text), 100_000, |_| {});
                         } else {
                             vm.get_database_mut().add_module(format!("m{}", m), &text);
                         }
